@@ -383,10 +383,10 @@ def r4_dimensions(program, rep):
 def check(program, rep):
     program.module(MOD)
     folder = Folder(program)
-    eths = r1_offset_table(folder, rep)
-    r2_functions(program, folder, rep, eths)
-    r3_fpga(program, folder, rep)
-    r4_dimensions(program, rep)
+    eths = rep.guard("C19-R1", r1_offset_table, folder, rep)
+    rep.guard("C19-R2", r2_functions, program, folder, rep, eths)
+    rep.guard("C19-R3", r3_fpga, program, folder, rep)
+    rep.guard("C19-R4", r4_dimensions, program, rep)
     return finish(rep, program, EXPLANATION, NOT_DECIDED,
                   trusted=["the tile description at the top of rules/C19.py "
                            "(rows y=0..7 spanning x in [max(0,y-3), "
